@@ -7,3 +7,4 @@ import SpgProofs.Properties.C10
 #print axioms Spg.C10.size_eq
 #print axioms Spg.C10.kept_order_indep
 #print axioms Spg.C10.model_order_covers
+#print axioms Spg.C10.atoms_from_kept
